@@ -67,12 +67,14 @@ extern DECLARE_URCU_TLS(struct urcu_qsbr_reader, urcu_qsbr_reader);
  */
 static inline void urcu_qsbr_wake_up_gp(void)
 {
+	urcu_verif_point(URCU_VP_QSBR_QS_PRE_WAKE, &urcu_qsbr_gp);
 	if (caa_unlikely(uatomic_load(&URCU_TLS(urcu_qsbr_reader).waiting))) {
 		uatomic_store(&URCU_TLS(urcu_qsbr_reader).waiting, 0);
 		cmm_smp_mb();
 		if (uatomic_load(&urcu_qsbr_gp.futex) != -1)
 			return;
 		uatomic_store(&urcu_qsbr_gp.futex, 0);
+		urcu_verif_point(URCU_VP_WAKE_GP_PRE_SYSCALL, &urcu_qsbr_gp);
 		/*
 		 * Ignoring return value until we can make this function
 		 * return something (because urcu_die() is not publicly
